@@ -67,57 +67,6 @@ example : rep (2 ^ 63) = -1 ∧ rep (2 ^ 63 - 1) = 9223372036854775807 := by dec
 
 /-! ## The cost walk -/
 
-/-- The property's domain for a document: every cost function returns a resolver cost in
-    `[0, maxInt]` and a Go-int multiplier, whatever context it is given. -/
-def Doc.OK {κ : Type} (doc : Doc κ) : Prop := (∀ o ∈ doc.ops, o.node.OK) ∧ FragsOK doc.frags
-
-theorem chosen_mem {κ : Type} {opName : String} {ops : List (Op κ)} {o : Op κ}
-    (h : Spec.chosen opName ops = some o) : o ∈ ops := by
-  unfold Spec.chosen at h
-  split at h
-  · rename_i o' hf
-    simp only [Option.some.injEq] at h
-    subst h
-    have : o' ∈ ops.filter (fun d => opName == "" || d.name == some opName) := by rw [hf]; simp
-    exact (List.mem_filter.mp this).1
-  · cases h
-
-theorem rep_zero : rep 0 = 0 := by decide
-theorem rep_one : rep 1 = 1 := by decide
-
-/-- The rule's final `cost` variable is the saturated reference cost; a document outside the
-    reference's domain stops the walk with a (non-panic) error. -/
-theorem finalCost_eq {κ : Type} (ctx0 : κ) (opName : String) (dflt : FieldCost κ) (doc : Doc κ)
-    (hdoc : doc.OK) (hd : dflt.OK) :
-    match Spec.refCost ctx0 opName dflt doc with
-    | some R => finalCost ctx0 opName true dflt doc = .ok (rep R)
-    | none => ∃ e, finalCost ctx0 opName true dflt doc = .error e ∧ e.NotPanic := by
-  unfold finalCost Spec.refCost
-  rw [chooseOp_eq_chosen]
-  cases hc : Spec.chosen opName doc.ops with
-  | none => simp only; exact congrArg _ rep_zero.symm
-  | some o =>
-    simp only [if_true]
-    have hok : o.node.OK := hdoc.1 o (chosen_mem hc)
-    have h := walk_tracks doc.frags hdoc.2 dflt hd doc.frags.length [] o.node hok 0 1 [] ctx0 []
-    rw [rep_zero, rep_one] at h
-    unfold Tracks at h
-    cases hr : Spec.ref doc.frags dflt doc.frags.length [] 1 ctx0 o.node with
-    | some R =>
-      rw [hr] at h
-      simp only at h ⊢
-      rw [h]
-      simp [bind, Except.bind]
-    | none =>
-      rw [hr] at h
-      obtain ⟨e, he, hp⟩ := h
-      exact ⟨e, by rw [he]; rfl, hp⟩
-
-theorem rep_neg_iff (R : Nat) : rep R < 0 ↔ (9223372036854775807 : Int) < R := by
-  unfold rep
-  have : (0 : Int) ≤ R := Int.natCast_nonneg R
-  split <;> omega
-
 /-- **cost_eq_sat_ref** — for every validated request (the reference cost is defined) the value
     written to `*actual` is exactly `min(refCost, maxInt)`: the cost is exact whenever it is
     representable and saturates at maxInt otherwise. -/
@@ -264,5 +213,188 @@ theorem bad_variables_rejected {κ : Type} (ctx0 : κ) (opName : String) (max : 
   unfold validateCost finalCost
   rw [chooseOp_eq_chosen, ho]
   rfl
+
+/-- **walk_never_out_of_fuel** — for *every* document (no hypothesis at all) the model's fuel
+    (number of fragment definitions) is never exhausted: the by-name guard makes every nested
+    expansion add a new defined name, and there are only that many (pigeonhole). So the fuel is not
+    an assumption of the theorems above, and the Go recursion `visitNode` terminates. -/
+theorem walk_never_out_of_fuel {κ : Type} (ctx0 : κ) (opName : String) (varsOk : Bool) (max : Int)
+    (dflt : FieldCost κ) (doc : Doc κ) :
+    (validateCost ctx0 opName varsOk max dflt doc).verdict ≠ .outOfFuel := by
+  have hfc : NoOOF (finalCost ctx0 opName varsOk dflt doc) := by
+    unfold finalCost
+    split
+    · intro h; cases h
+    · split
+      · refine NoOOF.bind (walk_noOOF doc.frags dflt doc.frags.length [] List.nodup_nil
+          (by intro x hx; cases hx) (by simp) _ _) fun st => ?_
+        intro h; cases h
+      · intro h; cases h
+  unfold validateCost
+  split
+  · simp only [report]
+    repeat' split
+    all_goals (intro hc; cases hc)
+  · intro hc; cases hc
+  · intro hc; cases hc
+  · rename_i h; exact absurd h hfc
+
+/-- What validation guarantees about a document (the part the cost rule relies on): every field has
+    a definition and coercible arguments, every spread names a defined fragment, and the fragments
+    admit a topological order (spreads are acyclic). -/
+structure Doc.Valid {κ : Type} (doc : Doc κ) (order : List String) : Prop where
+  frags : FragsValid doc.frags order
+  ops : ∀ o ∈ doc.ops, o.node.Clean ∧ ∀ g ∈ spreadNames o.node, g ∈ order
+
+/-- **validated_in_domain** — every validated document has a reference cost: the by-name cycle
+    guard never fires on it, no spread is undefined, the expansion depth never exceeds the number of
+    fragment definitions. The hypotheses `refCost … = some R` of the theorems above are therefore
+    satisfied by every validated request. -/
+theorem validated_in_domain {κ : Type} (ctx0 : κ) (opName : String) (dflt : FieldCost κ)
+    (doc : Doc κ) (order : List String) (hv : doc.Valid order) :
+    (Spec.refCost ctx0 opName dflt doc).isSome := by
+  unfold Spec.refCost
+  cases hc : Spec.chosen opName doc.ops with
+  | none => rfl
+  | some o =>
+    simp only
+    obtain ⟨hclean, hsp⟩ := hv.ops o (chosen_mem hc)
+    refine ref_isSome_of_valid doc.frags order hv.frags dflt doc.frags.length [] o.node hclean ?_ 1 ctx0
+    intro g hg
+    have hgo := hsp g hg
+    refine ⟨hgo, ?_, fun p hp => by cases hp⟩
+    have h1 : order.idxOf g < order.length := List.idxOf_lt_length_of_mem hgo
+    have h2 : order ⊆ fragNames doc.frags := by
+      intro x hx
+      obtain ⟨d, hfd, _⟩ := hv.frags.defined x hx
+      exact List.mem_map_of_mem (f := (·.1)) (findFrag_mem hfd)
+    have h3 := List.Nodup.length_le_of_subset hv.frags.nodup h2
+    simp only [fragNames, List.length_map] at h3
+    omega
+
+/-- **validated_cost_exact** — the property for validated requests in one statement: there is a
+    reference cost `R` (Σ resolver × Π ancestor multipliers over the expanded chosen operation), the
+    reported cost is `min(R, maxInt)`, and under a limit `max ∈ {−1} ∪ [0, maxInt]` the request is
+    accepted iff `max = −1 ∨ R ≤ max`. -/
+theorem validated_cost_exact {κ : Type} (ctx0 : κ) (opName : String) (max : Int) (hmax : -1 ≤ max)
+    (hmax' : max ≤ 9223372036854775807) (dflt : FieldCost κ) (doc : Doc κ) (order : List String)
+    (hv : doc.Valid order) (hdoc : doc.OK) (hd : dflt.OK) :
+    ∃ R : Nat, Spec.refCost ctx0 opName dflt doc = some R ∧
+      (validateCost ctx0 opName true max dflt doc).actual = some (min (R : Int) 9223372036854775807) ∧
+      ((validateCost ctx0 opName true max dflt doc).accepted = true ↔ (max = -1 ∨ (R : Int) ≤ max)) := by
+  have h := validated_in_domain ctx0 opName dflt doc order hv
+  cases href : Spec.refCost ctx0 opName dflt doc with
+  | none => rw [href] at h; cases h
+  | some R =>
+    exact ⟨R, rfl, cost_eq_sat_ref ctx0 opName max dflt doc hdoc hd R href,
+      accept_iff ctx0 opName max hmax hmax' dflt doc hdoc hd R href⟩
+
+/-! ## Connections with their default costs (pagination.go:226-235, 264-274, 434-442) -/
+
+/-- `defaultConnectionCost`: resolver cost 1, and the context carries `last` if given, else `first`
+    (0 if neither is an int). -/
+def connMaxCount (first last : Option Int) : Int :=
+  match last with
+  | some l => l
+  | none => first.getD 0
+
+def connectionCost (first last : Option Int) : Int → FieldCost Int :=
+  fun _ => { ctx := some (connMaxCount first last), resolver := 1, multiplier := 0 }
+
+/-- The `edges` field: resolver cost 0, multiplier = the context's max edge count. -/
+def edgesCost : Int → FieldCost Int :=
+  fun k => { ctx := none, resolver := 0, multiplier := k }
+
+/-- **connection_charges_max_count** — for `conn(first|last: K) { edges { sels } }` with the default
+    costs, the reference cost is `M` for the connection itself plus the cost of `sels` under the
+    multiplier `M × effMul K` (K ≤ 1 counts as 1): the multiplier charged for every edge
+    sub-selection is `effMul K`. -/
+theorem connection_charges_max_count (E : String → Nat → Int → Option Nat) (dflt : FieldCost Int)
+    (M : Nat) (c : Int) (first last : Option Int) (sels : List (Node Int)) :
+    Spec.refNode E dflt M c
+      (.field (.fn (connectionCost first last)) [.other [.field (.fn edgesCost) [.other sels]]]) =
+    (Spec.refList E dflt (M * Spec.effMul (connMaxCount first last)) (connMaxCount first last) sels).map
+      (fun below => M + below) := by
+  have e0 : Spec.effMul 0 = 1 := by decide
+  simp only [Spec.refNode, Spec.refList, connectionCost, edgesCost, e0, Option.getD, Nat.mul_one,
+    Int.toNat_zero, Int.toNat_one, Nat.mul_zero, Nat.zero_add]
+  generalize Spec.refList E dflt (M * Spec.effMul (connMaxCount first last)) (connMaxCount first last) sels = r
+  cases r with
+  | none => rfl
+  | some b => simp [Option.map]
+
+/-- **edges_le_multiplier** — the number of edges a connection resolves never exceeds the multiplier
+    charged for them. The hypothesis is the connection's own guarantee (C09 `edges_le_first`: at most
+    `first` resp. `last` edges are returned; none at all when the arguments are rejected); the
+    harness counts resolved edges of served connections against the charged multiplier. -/
+theorem edges_le_multiplier (first last : Option Int) (edges : Nat)
+    (hC09 : edges = 0 ∨ (edges : Int) ≤ connMaxCount first last) :
+    edges ≤ Spec.effMul (connMaxCount first last) := by
+  unfold Spec.effMul
+  rcases hC09 with h | h
+  · subst h; split <;> omega
+  · split <;> omega
+
+/-! ## Non-vacuity: concrete requests, evaluated by the kernel -/
+
+/-- `{ root { ...F kids { ...F free } } }  fragment F on N { leaf(ctx) }` with root: cost 1, ×3,
+    context 7; kids: cost 2, ×5; leaf: cost = context; free: cost 0. -/
+def exDoc : Doc Int :=
+  { ops := [{ name := none, node := .other [.other [
+      .field (.fn fun _ => { ctx := some 7, resolver := 1, multiplier := 3 }) [.other [
+        .spread "F" [],
+        .field (.fn fun _ => { ctx := none, resolver := 2, multiplier := 5 }) [.other [
+          .spread "F" [],
+          .field (.fn fun _ => { ctx := none, resolver := 0, multiplier := 0 }) []]]]]]] }]
+    frags := [("F", .other [.other [.field (.fn fun k => { ctx := none, resolver := k, multiplier := 0 }) []]])] }
+
+-- 1 + 3·7 + 3·2 + 15·7 + 15·0 = 133
+example : Spec.refCost (0 : Int) "" { ctx := none, resolver := 1, multiplier := 0 } exDoc = some 133 := by decide +kernel
+example : validateCost (0 : Int) "" true 133 { ctx := none, resolver := 1, multiplier := 0 } exDoc =
+    { verdict := .accepted, actual := some 133 } := by decide +kernel
+example : validateCost (0 : Int) "" true 132 { ctx := none, resolver := 1, multiplier := 0 } exDoc =
+    { verdict := .exceeds 133 132, actual := some 133 } := by decide +kernel
+
+/-- F-14a's document: root ×2^40 (cost 1) { kids ×2^40 (cost 0) { free (cost 0) } } — true cost 1. -/
+def f14aDoc : Doc Int :=
+  { ops := [{ name := none, node := .other [.other [
+      .field (.fn fun _ => { ctx := none, resolver := 1, multiplier := 1099511627776 }) [.other [
+        .field (.fn fun _ => { ctx := none, resolver := 0, multiplier := 1099511627776 }) [.other [
+          .field (.fn fun _ => { ctx := none, resolver := 0, multiplier := 0 }) []]]]]]] }]
+    frags := [] }
+
+example : validateCost (0 : Int) "" true 1 { ctx := none, resolver := 1, multiplier := 0 } f14aDoc =
+    { verdict := .accepted, actual := some 1 } := by decide +kernel
+
+/-- … and with a leaf of cost 1 instead, the cost 1 + 2^80 is beyond maxInt: rejected under every
+    limit, reported as maxInt. -/
+def overflowDoc : Doc Int :=
+  { ops := [{ name := none, node := .other [.other [
+      .field (.fn fun _ => { ctx := none, resolver := 1, multiplier := 1099511627776 }) [.other [
+        .field (.fn fun _ => { ctx := none, resolver := 0, multiplier := 1099511627776 }) [.other [
+          .field .default []]]]]]] }]
+    frags := [] }
+
+example : Spec.refCost (0 : Int) "" { ctx := none, resolver := 1, multiplier := 0 } overflowDoc =
+    some (1 + 2 ^ 80) := by decide +kernel
+example : validateCost (0 : Int) "" true 9223372036854775807 { ctx := none, resolver := 1, multiplier := 0 } overflowDoc =
+    { verdict := .tooHigh, actual := some 9223372036854775807 } := by decide +kernel
+
+/-! ## Finding F-14a (fixed): the witness against the code before repo-patches/C14/01 -/
+
+/-- `checkedNonNegativeMultiply` as it was before the fix (hand copy of validate_cost.go:17-28 at
+    the pinned commit; kept only as the negation witness — the model uses the generated, fixed one). -/
+def mulBeforeFix (a b : Int) : Option Int :=
+  if a < 0 ∨ b < 0 then some (-1)
+  else if a = 0 ∨ b = 0 ∨ a = 1 ∨ b = 1 then some (wrap64 (a * b))
+  else
+    let c := wrap64 (a * b)
+    if b = 0 then none else
+    if goDiv c b ≠ a then some (-1) else some c
+
+/-- Before the fix `sat_hom` was false: an overflowed multiplier product (2^80, represented by −1)
+    times a resolver cost of 0 gave −1 instead of `rep (2^80 × 0) = 0` — the full-strength
+    `cost_eq_sat_ref` did not hold of that code (F-14a). -/
+example : mulBeforeFix (rep (2 ^ 80)) (rep 0) = some (-1) ∧ rep (2 ^ 80 * 0) = 0 := by decide
 
 end ApiFu.C14
